@@ -365,3 +365,222 @@ Proof.
   exists subnormal_witness. vm_compute.
   repeat split; try reflexivity; try discriminate.
 Qed.
+
+(* ---------------------------------------------------------------- *)
+(* (b) DER form, (c) exact value                                     *)
+
+Lemma split_binary_shape s eb mant : 0 <= s <= 1 -> 1 <= zlen eb <= 3 ->
+  split_binary ((128 + 64 * s + (zlen eb - 1)) :: eb ++ mant)
+  = Some (128 + 64 * s + (zlen eb - 1), eb, mant).
+Proof.
+  intros Hs Hlen. unfold split_binary.
+  set (hdr := 128 + 64 * s + (zlen eb - 1)).
+  assert (Hel : hdr mod 4 = zlen eb - 1) by (unfold hdr; Z.div_mod_to_equations; lia).
+  rewrite Hel. pose proof (zlen_nonneg mant).
+  replace ((128 <=? hdr) && (zlen eb - 1 <? 3) && (zlen eb - 1 + 1 <=? zlen (eb ++ mant)))
+    with true by (rewrite zlen_app; unfold hdr; lia).
+  replace (Z.to_nat (zlen eb - 1 + 1)) with (length eb) by (unfold zlen; lia).
+  rewrite firstn_app_len, skipn_app_len. reflexivity.
+Qed.
+
+Lemma der_real_form_long bs : 2 <= zlen bs ->
+  der_real_form bs =
+  match split_binary bs with
+  | None => false
+  | Some (b, ex, mn) =>
+      ((b / 4) mod 16 =? 0) && minimal_twos ex &&
+      match mn with
+      | [] => false
+      | m0 :: _ => negb (m0 =? 0) && (last_byte mn mod 2 =? 1)
+      end
+  end.
+Proof.
+  destruct bs as [|b [|c l]]; unfold zlen; simpl length; intros H; try lia. reflexivity.
+Qed.
+
+Lemma der_real_form_weak_long bs : 2 <= zlen bs ->
+  der_real_form_weak bs =
+  match split_binary bs with
+  | None => false
+  | Some (b, ex, mn) =>
+      ((b / 4) mod 16 =? 0) && minimal_twos ex &&
+      match mn with
+      | [] => false
+      | _ :: _ => last_byte mn mod 2 =? 1
+      end
+  end.
+Proof.
+  destruct bs as [|b [|c l]]; unfold zlen; simpl length; intros H; try lia. reflexivity.
+Qed.
+
+Lemma der_shape s eb mant :
+  0 <= s <= 1 -> 1 <= zlen eb <= 3 -> minimal_twos eb = true ->
+  mant <> [] -> be_val mant mod 2 = 1 ->
+  let bs := (128 + 64 * s + (zlen eb - 1)) :: eb ++ mant in
+  der_real_form_weak bs = true /\ der_real_form bs = negb (hd 0 mant =? 0).
+Proof.
+  intros Hs Hlen Hmin Hne Hodd bs.
+  assert (H2 : 2 <= zlen bs).
+  { unfold bs. rewrite zlen_cons, zlen_app. pose proof (zlen_nonneg mant). lia. }
+  rewrite der_real_form_long, der_real_form_weak_long by exact H2.
+  unfold bs. rewrite split_binary_shape by assumption. rewrite Hmin.
+  replace ((128 + 64 * s + (zlen eb - 1)) / 4 mod 16 =? 0) with true
+    by (Z.div_mod_to_equations; lia).
+  rewrite be_val_last_mod2 in Hodd by exact Hne. fold (last_byte mant) in Hodd.
+  destruct mant as [|m0 tl]; [congruence|]. cbn [hd andb].
+  replace (last_byte (m0 :: tl) mod 2 =? 1) with true by lia.
+  split; [reflexivity|]. now rewrite andb_true_r.
+Qed.
+
+Lemma real_value_shape s eb mant : 0 <= s <= 1 -> 1 <= zlen eb <= 3 ->
+  real_value ((128 + 64 * s + (zlen eb - 1)) :: eb ++ mant)
+  = Some (s, be_val mant, twos_value eb).
+Proof.
+  intros Hs Hlen. unfold real_value. rewrite split_binary_shape by assumption.
+  set (hdr := 128 + 64 * s + (zlen eb - 1)).
+  replace ((hdr / 16) mod 4) with 0 by (unfold hdr; Z.div_mod_to_equations; lia).
+  replace ((hdr / 64) mod 2) with s by (unfold hdr; Z.div_mod_to_equations; lia).
+  replace ((hdr / 4) mod 4) with 0 by (unfold hdr; Z.div_mod_to_equations; lia).
+  cbn [Z.eqb]. rewrite Z.mul_1_r, Z.add_0_r. reflexivity.
+Qed.
+
+(* the provable part of "stored octets are the DER form", for EVERY bit
+   pattern (subnormals included): everything except "no leading zero mantissa
+   octet" *)
+Theorem real_der_form_partial d : in64 d -> der_real_form_weak (double2REAL d) = true.
+Proof.
+  intros Hd.
+  destruct (d_fields d Hd) as (Hs & He & Hf & Hmk).
+  destruct real_roundtrip_specials as (_ & _ & _ & _ & Z0 & Z1 & I0 & I1).
+  assert (Hs2 : d_sign d = 0 \/ d_sign d = 1) by lia.
+  destruct (Z.eq_dec (d_exp d) 2047) as [E2047|NE2047].
+  - destruct (Z.eq_dec (d_frac d) 0) as [F0|NF0].
+    + rewrite Hmk, E2047, F0.
+      destruct Hs2 as [-> | ->];
+        [rewrite (I0 : double2REAL (mk_double 0 2047 0) = [64])|rewrite (I1 : double2REAL (mk_double 1 2047 0) = [65])]; reflexivity.
+    + assert (Hn : is_nan d = true) by (unfold is_nan; lia).
+      rewrite (proj1 (real_roundtrip_nan d Hd Hn)). reflexivity.
+  - destruct (Z.eq_dec (d_exp d) 0) as [E0|NE0]; [destruct (Z.eq_dec (d_frac d) 0) as [F0|NF0]|].
+    + rewrite Hmk, E0, F0.
+      destruct Hs2 as [-> | ->];
+        [rewrite (Z0 : double2REAL (mk_double 0 0 0) = [])|rewrite (Z1 : double2REAL (mk_double 1 0 0) = [67])]; reflexivity.
+    + destruct (d2R_shape d Hd NE2047 ltac:(lia))
+        as (eb & mant & t & Henc & Hlen & _ & Hmin & _ & _ & Hne & _ & _ & Hodd & _).
+      rewrite Henc. apply der_shape; assumption.
+    + destruct (d2R_shape d Hd NE2047 ltac:(lia))
+        as (eb & mant & t & Henc & Hlen & _ & Hmin & _ & _ & Hne & _ & _ & Hodd & _).
+      rewrite Henc. apply der_shape; assumption.
+Qed.
+
+(* the full DER statement is false of the code: 1.0078125 = 0x3ff0200000000000
+   is stored as 80 f9 00 81, with a leading zero mantissa octet *)
+Definition leadzero_witness : Z := 4607217603172106240.   (* 0x3ff0200000000000 *)
+Theorem real_der_form_refuted :
+  exists d, normal d /\ double2REAL d = [128; 249; 0; 129] /\
+            der_real_form (double2REAL d) = false.
+Proof.
+  exists leadzero_witness. unfold normal, in64. vm_compute.
+  repeat split; try reflexivity; try discriminate.
+Qed.
+
+Lemma odd_part_unique N t N' t' : 0 <= t -> 0 <= t' ->
+  N mod 2 = 1 -> N' mod 2 = 1 -> N * 2 ^ t = N' * 2 ^ t' -> t = t'.
+Proof.
+  assert (Hlt : forall A a B b, 0 <= a -> a < b -> A mod 2 = 1 -> A * 2 ^ a = B * 2 ^ b -> False).
+  { intros A a B b Ha Hab HA Heq.
+    replace b with (a + (b - a - 1) + 1) in Heq by lia.
+    rewrite !Z.pow_add_r in Heq by lia. change (2 ^ 1) with 2 in Heq.
+    pose proof (pow2_pos a Ha) as HP.
+    assert (HAe : A = B * 2 ^ (b - a - 1) * 2) by nia.
+    rewrite HAe, Z.mod_mul in HA by lia. lia. }
+  intros Ht Ht' HN HN' Heq.
+  destruct (Z.lt_trichotomy t t') as [H|[H|H]]; [exfalso|exact H|exfalso].
+  - exact (Hlt N t N' t' Ht H HN Heq).
+  - exact (Hlt N' t' N t Ht' H HN' (eq_sym Heq)).
+Qed.
+
+(* exactly which non-special doubles get the leading zero octet: those whose
+   significand 2^52+f has a number of trailing zero bits that is 5, 6 or 7
+   modulo 8 (the make-odd shift then empties the first kept byte 0x1X) *)
+Theorem real_der_form_iff d N t : in64 d -> d_exp d <> 2047 -> (d_exp d <> 0 \/ d_frac d <> 0) ->
+  0 <= t -> N mod 2 = 1 -> N * 2 ^ t = two52 + d_frac d ->
+  (der_real_form (double2REAL d) = true <-> t mod 8 <= 4).
+Proof.
+  intros Hd He Hnz Ht HN Heq.
+  destruct (d_fields d Hd) as (Hs & _ & _ & _).
+  destruct (d2R_shape d Hd He Hnz)
+    as (eb & mant & t' & Henc & Hlen & _ & Hmin & _ & _ & Hne & Ht' & Heq' & Hodd & Hhd).
+  assert (t' = t) by (apply (odd_part_unique (be_val mant) t' N t); try assumption; lia).
+  subst t'. rewrite Henc.
+  rewrite (proj2 (der_shape (d_sign d) eb mant Hs Hlen Hmin Hne Hodd)).
+  rewrite <- Hhd. split; intros H; lia.
+Qed.
+
+(* (c) the written triple denotes exactly the double: N * 2^E = (2^52+f) * 2^(e-1075),
+   N odd *)
+Theorem real_value_exact d : normal d ->
+  exists N E, real_value (double2REAL d) = Some (d_sign d, N, E) /\
+              d_exp d - 1075 <= E /\ N mod 2 = 1 /\
+              N * 2 ^ (E - (d_exp d - 1075)) = two52 + d_frac d.
+Proof.
+  intros (Hd & He).
+  destruct (d_fields d Hd) as (Hs & _ & _ & _).
+  destruct (d2R_shape d Hd ltac:(lia) ltac:(lia))
+    as (eb & mant & t & Henc & Hlen & _ & _ & Htw & _ & _ & Ht & HN & Hodd & _).
+  exists (be_val mant), (twos_value eb).
+  rewrite Henc, real_value_shape by assumption.
+  rewrite Htw, ilogb_normal by exact He.
+  split; [reflexivity|]. split; [lia|]. split; [exact Hodd|].
+  replace (d_exp d - 1023 - 52 + t - (d_exp d - 1075)) with t by lia. exact HN.
+Qed.
+
+(* what is written for a subnormal: the significand gets the hidden bit it does
+   not have, i.e. the octets denote (2^52+f) * 2^(log2 f - 1126), not f * 2^-1074 *)
+Theorem real_value_subnormal_actual d : subnormal d ->
+  exists N E, real_value (double2REAL d) = Some (d_sign d, N, E) /\
+              Z.log2 (d_frac d) - 1126 <= E /\ N mod 2 = 1 /\
+              N * 2 ^ (E - (Z.log2 (d_frac d) - 1126)) = two52 + d_frac d.
+Proof.
+  intros (Hd & He & Hf).
+  destruct (d_fields d Hd) as (Hs & _ & _ & _).
+  destruct (d2R_shape d Hd ltac:(lia) ltac:(lia))
+    as (eb & mant & t & Henc & Hlen & _ & _ & Htw & _ & _ & Ht & HN & Hodd & _).
+  exists (be_val mant), (twos_value eb).
+  rewrite Henc, real_value_shape by assumption.
+  rewrite Htw. unfold ilogb. rewrite He.
+  replace (d_frac d =? 0) with false by lia. cbn [Z.eqb].
+  split; [reflexivity|]. split; [lia|]. split; [exact Hodd|].
+  replace (Z.log2 (d_frac d) - 1074 - 52 + t - (Z.log2 (d_frac d) - 1126)) with t by lia. exact HN.
+Qed.
+
+(* the full "denotes exactly d" statement is false on subnormals: for 2^-1023
+   (f = 2^51, value f * 2^-1074) the octets denote 3 * 2^-1024 *)
+Theorem real_value_exact_refuted :
+  exists d, subnormal d /\
+            real_value (double2REAL d) = Some (0, 3, -1024) /\
+            3 * 2 ^ (-1024 + 1074) <> d_frac d.
+Proof.
+  exists subnormal_witness. unfold subnormal, in64. vm_compute.
+  repeat split; try reflexivity; try discriminate.
+Qed.
+
+(* ---------------------------------------------------------------- *)
+(* non-vacuity: concrete instances of the hypotheses                 *)
+
+Example normal_one : normal 4607182418800017408 /\ double2REAL 4607182418800017408 = [128; 0; 1].
+Proof. unfold normal, in64. vm_compute. repeat split; try reflexivity; discriminate. Qed.
+
+Example normal_max : normal 9218868437227405311 /\
+  double2REAL 9218868437227405311 = [129; 3; 203; 31; 255; 255; 255; 255; 255; 255].
+Proof. unfold normal, in64. vm_compute. repeat split; try reflexivity; discriminate. Qed.
+
+Example nan_instance : in64 18442240474082181121 /\ is_nan 18442240474082181121 = true.
+Proof. unfold in64. vm_compute. repeat split; try reflexivity; discriminate. Qed.
+
+Example subnormal_instance : subnormal subnormal_witness /\ subnormal 1.
+Proof. unfold subnormal, in64. vm_compute. repeat split; try reflexivity; discriminate. Qed.
+
+(* the leading-zero witness in the terms of real_der_form_iff: 2^52+f = 129 * 2^45 *)
+Example der_iff_instance :
+  129 mod 2 = 1 /\ 129 * 2 ^ 45 = two52 + d_frac leadzero_witness /\ 45 mod 8 = 5.
+Proof. vm_compute. repeat split; reflexivity. Qed.
